@@ -358,6 +358,8 @@ def run_smart_case(case, model, py_only=False, keep_engine=False):
                 out = hooks["list"](eng, world, [d])
                 lst[d] = out[1] if out[0] == "ok" else out[0]
             quiets.append((len(obs) - 1, vl, vr, lst))
+            if any(n[0] == "F" and q not in vl for q, n in vr.items()):
+                res.extra["remote_only_quiets"] = res.extra.get("remote_only_quiets", 0) + 1
             spec_acts.append(("report",))
             # Python mirror: first difference (search oracle; the extracted spec decides)
             if not first_bad:
@@ -550,8 +552,10 @@ class SmartGen:
     """Seeded generator: fresh paths between drains, a file is acted on from one side only between two drains,
     folder deletion bracketed by drains; request/un-request/listing anywhere."""
 
-    def __init__(self, rng, drained):
+    def __init__(self, rng, drained, wild=False):
         self.rng = rng
+        self.wild = wild                # Stream B only: by-id requests of objects the engine may know without a path,
+                                        # request / un-request of folders (findings S-1, S-2)
         self.drained = drained          # a drain after every action (sequential spec semantics, every outcome compared)
         self.fl = rng.choice(SMART_FLAVOURS)
         self.auto = rng.choice(AUTOS)
@@ -561,7 +565,7 @@ class SmartGen:
         self.touched = {}               # rel -> side that acted on it since the last drain
         self.dead = set()               # paths freed since the last drain
         self.known = set()
-        self.by_id_unknown = False      # Stream B only: request by id of an object the engine may know without a path
+        self.by_id_unknown = wild
         if self.auto[0] == "dir":
             self.user(1, "mkdir", "/auto")
             self.drain()
@@ -661,11 +665,13 @@ class SmartGen:
             if c:
                 self.user(0, "write", rng.choice(c), self.content())
         elif r < 0.80 and rf:                                           # request
-            pool = remote_only if (remote_only and rng.random() < 0.8) else rf
+            seen = [p for p in remote_only if p in self.known] if not self.drained else remote_only
+            pool = seen if (seen and rng.random() < 0.75) else (remote_only if (remote_only and rng.random() < 0.6) else rf)
             p = rng.choice(pool)
             if p not in self.dead:
                 self.sched.append(["hook", "request", self.how(p), p])
-                m.step(("request", p))
+                if self.drained or p in self.known:
+                    m.step(("request", p))          # otherwise the engine may not know the object yet: expect NotFound
         elif r < 0.90 and rf:                                           # un-request (mostly of requested files)
             q = [p for p in m.Q if p in m.R]
             p = rng.choice(sorted(q)) if (q and rng.random() < 0.85) else rng.choice(rf)
@@ -676,6 +682,14 @@ class SmartGen:
                 m.step(("unrequest", p))
         elif r < 0.96:                                                  # listing
             self.sched.append(["hook", "list", rng.choice(self.dirs(m.L))])
+        elif self.wild and rng.random() < 0.6:                          # Stream B only: request / un-request of a FOLDER
+            ds = [d for d in self.dirs(m.R) if d]
+            if ds:
+                d = rng.choice(ds)
+                self.sched.append(["hook", "request", self.how(d), d])
+                if rng.random() < 0.7:
+                    self.noise()
+                    self.sched.append(["hook", "unrequest", self.how(d), d])
         else:                                                           # request / un-request of something unknown
             self.sched.append(["hook", rng.choice(["request", "unrequest"]), self.how(), "/nothing%d" % self.counter])
 
@@ -693,3 +707,79 @@ def smart_drained(rng):
 
 def smart_interleaved(rng):
     return SmartGen(rng, False).case(rng.randint(2, 16))
+
+
+# ------------------------------------------------------------------ Stream B: deterministic (independent of VERIF_SEED)
+WILD_VERSION = "c20-wild-1"
+
+
+def smart_wild(i):
+    """fixed-seed sample of the generator WITHOUT the two domain restrictions of Stream A"""
+    import random
+    rng = random.Random("%s/%d" % (WILD_VERSION, i))
+    return SmartGen(rng, rng.random() < 0.3, wild=True).case(rng.randint(2, 14))
+
+
+smart_wild.by_index = True
+
+SLOTS = [[], [["intake", 1]], [["intake", 1], ["sync"]], [["intake", 0], ["intake", 1], ["sync"]],
+         [["intake", 1], ["sync"], ["sync"]], [["drain"]]]
+HOWS = ["path_l", "path_r", "oid"]
+
+
+def _det_scenarios():
+    """(name, builder(how, slot_a, slot_b) -> schedule) — boundary shapes of the property"""
+    def U(side, kind, rel, c=None):
+        root = "/remote" if side else "/local"
+        return ["user", side, [kind, root + rel] + ([c] if c is not None else [])]
+    R = lambda how, rel: ["hook", "request", how, rel]
+    X = lambda how, rel: ["hook", "unrequest", how, rel]
+    Ls = lambda d: ["hook", "list", d]
+    D = ["drain"]
+    sc = []
+    sc.append(("parents_first", lambda h, a, b:
+               [U(1, "mkdir", "/a"), U(1, "mkdir", "/a/b"), U(1, "create", "/a/b/f.txt", b"one")] + a + [R(h, "/a/b/f.txt")] + b
+               + [D, U(1, "write", "/a/b/f.txt", b"two")] + a + [D]))
+    sc.append(("both_directions", lambda h, a, b:
+               [U(1, "create", "/f", b"r1"), D, R(h, "/f")] + a + [U(1, "write", "/f", b"r2")] + b + [D, U(0, "write", "/f", b"l3")]
+               + a + [D, Ls("")]))
+    sc.append(("edit_then_unrequest", lambda h, a, b:
+               [U(1, "create", "/f", b"r1"), D, R(h, "/f"), D, U(0, "write", "/f", b"newer"), X(h, "/f")] + a + [Ls("")] + b
+               + [D, U(1, "write", "/f", b"later")] + a + [D]))
+    sc.append(("auto_then_unrequest", lambda h, a, b:
+               [U(1, "mkdir", "/auto"), D, U(1, "create", "/auto/x.txt", b"a1")] + a + [D, X(h, "/auto/x.txt")] + b
+               + [U(1, "write", "/auto/x.txt", b"a2")] + a + [D, R(h, "/auto/x.txt"), D]))
+    sc.append(("local_creations", lambda h, a, b:
+               [U(0, "mkdir", "/d"), U(0, "create", "/d/l.txt", b"L")] + a + [U(1, "create", "/g.txt", b"G")] + b
+               + [D, Ls(""), Ls("/d"), R(h, "/d/l.txt"), D, X(h, "/d/l.txt"), D, Ls("/d")]))
+    sc.append(("remote_delete_of_requested", lambda h, a, b:
+               [U(1, "create", "/f", b"r1"), D, R(h, "/f"), D, U(1, "delete", "/f")] + a + [D, U(1, "create", "/f", b"again")] + b
+               + [D, Ls(""), R(h, "/f"), D]))
+    sc.append(("unknown_and_unrequested", lambda h, a, b:
+               [U(1, "create", "/f", b"r1")] + a + [R(h, "/nothing"), X(h, "/nothing"), X(h, "/f")] + b + [D, R(h, "/f"), R(h, "/f"), D,
+                X(h, "/f"), X(h, "/f"), D]))
+    sc.append(("request_racing_remote_edit", lambda h, a, b:
+               [U(1, "create", "/f", b"r1"), D, U(1, "write", "/f", b"r2")] + a + [R(h, "/f")] + b + [D]))
+    sc.append(("unrequest_racing_remote_edit", lambda h, a, b:
+               [U(1, "create", "/f", b"r1"), D, R(h, "/f"), D, U(1, "write", "/f", b"r2")] + a + [X(h, "/f")] + b + [D]))
+    return sc
+
+
+def smart_det_count():
+    return len(_det_scenarios()) * len(AUTOS) * len(HOWS) * len(SLOTS) * len(SLOTS)
+
+
+def smart_det(i):
+    """the i-th case of the exhaustive product scenario x predicate x request flavour x two engine-step slots"""
+    sc = _det_scenarios()
+    i, b = divmod(i, len(SLOTS))
+    i, a = divmod(i, len(SLOTS))
+    i, h = divmod(i, len(HOWS))
+    i, au = divmod(i, len(AUTOS))
+    name, build = sc[i % len(sc)]
+    fl = E.Flavour()
+    return dict(flavour=fl.key(), auto=AUTOS[au], schedule=build(HOWS[h], [list(x) for x in SLOTS[a]], [list(x) for x in SLOTS[b]]),
+                hash_mult=1, scenario=name)
+
+
+smart_det.by_index = True
